@@ -211,6 +211,10 @@ func (vm *Thread) callBytecodePromise(promise *Promise) {
 
 	baseStack := &generator.stack[0]
 	stackLen := len(generator.stack)
+	// make room for the saved frame, only calls grow the stack
+	for float64(vm.spOffset()+stackLen) > 0.7*float64(len(vm.stack)) {
+		vm.growValueStack()
+	}
 	for i := range stackLen {
 		*vm.spAdd(i) = *vm.stackAdd(baseStack, i)
 	}
@@ -242,6 +246,10 @@ func (vm *Thread) CallGeneratorNext(generator *Generator) (value.Value, value.Va
 
 	baseStack := &generator.stack[0]
 	stackLen := len(generator.stack)
+	// make room for the saved frame, only calls grow the stack
+	for float64(vm.spOffset()+stackLen) > 0.7*float64(len(vm.stack)) {
+		vm.growValueStack()
+	}
 	for i := range stackLen {
 		*vm.spAdd(i) = *vm.stackAdd(baseStack, i)
 	}
